@@ -48,3 +48,42 @@ for _rank, _kind in ((1, "real"), (2, "real"), (1, "int"), (2, "int")):
                       "forall(0, n_edge, lambda e: edge_face_distances[e] == old(edge_face_distances)[e])"],
              options={"frames": True},
              raises=[("Exception", "False", "only_if")])
+
+
+# ---- public wrappers (C16 dataflow): which kernel gets which of THIS array's grid tables, where the result lives ---------------------
+_U = "uxarray.core.dataarray.UxDataArray."
+_GR = "uxarray.core.gradient."
+_G = "uxarray.grid.grid.Grid."
+_ACC = [_G + a for a in ("edge_face_connectivity", "edge_face_distances", "edge_node_connectivity", "n_edge")]
+_KER = [_GR + k for k in ("_calculate_grad_on_edge_from_faces", "_calculate_edge_face_difference", "_calculate_edge_node_difference")]
+
+
+def _acc(a):
+    return f"attr(summary('{_G}{a}', self.uxgrid), 'values')"
+
+
+for _d in (("n_face",), ("time", "n_face"), ("n_node",)):
+    _face = _d[-1] == "n_face"
+    contract(_U + "gradient", props=["C16"], variant="dims=" + ",".join(_d),
+             params={"self": f"obj('UxDataArray', dims={_d!r})", "normalize": "optional(bool)", "use_magnitude": "optional(bool)"},
+             returns="opaque",
+             ensures=([f"same(result.values, summary('{_GR}_calculate_grad_on_edge_from_faces', self.values, {_acc('edge_face_connectivity')}, "
+                       f"self.uxgrid.n_edge, {_acc('edge_face_distances')}, normalize))",
+                       "same(result.uxgrid, self.uxgrid)", f"result.dims == {list(_d[:-1]) + ['n_edge']!r}"] if _face else []),
+             options={"abstract": True, "summaries": _ACC + _KER},
+             raises=[("ValueError", str(not _face), "iff")])
+
+for _d, _dest in ((("n_face",), "edge"), (("time", "n_face"), "edge"), (("n_node",), "edge"), (("lev", "n_node"), "edge"),
+                  (("n_face",), "face"), (("n_node",), "node"), (("n_face",), "node"), (("n_node",), "face"), (("n_face",), "bogus")):
+    _ok = _dest == "edge"
+    if _d[-1] == "n_face":
+        _val = f"summary('{_GR}_calculate_edge_face_difference', self.values, {_acc('edge_face_connectivity')}, self.uxgrid.n_edge)"
+    else:
+        _val = f"summary('{_GR}_calculate_edge_node_difference', self.values, self.uxgrid.edge_node_connectivity.values)"
+    contract(_U + "difference", props=["C16"], variant="dims=" + ",".join(_d) + ";" + _dest,
+             params={"self": f"obj('UxDataArray', dims={_d!r})", "destination": repr(_dest)},
+             returns="opaque",
+             ensures=([f"same(result.values, {_val})", "same(result.uxgrid, self.uxgrid)",
+                       f"result.dims == {list(_d[:-1]) + ['n_edge']!r}"] if _ok else []),
+             options={"abstract": True, "summaries": _ACC + _KER},
+             raises=[("ValueError", str(not _ok), "iff")])
